@@ -236,12 +236,14 @@ def _as_pbc(np, pbc, form):
     return np.array(pbc, dtype=bool)
 
 
-def gen_arr_case(rng, regime):
+def gen_arr_case(rng, regime, big=None):
     f32 = False
     if regime == 'exact':
         f = 2.0 ** gen_scale_exp(rng)
         v, o = gen_cell_scaled(rng, rng.choice(CELL_KINDS), f)
         n0, n1 = _shape_pair(rng)
+        if big:
+            n0, n1 = rng.choice([(big, big), (1, big), (big, 1)])
         pos0 = [gen_point(rng, v, o) for _ in range(n0)]
         pos1 = [gen_point(rng, v, o) for _ in range(n1)]
         if n0 and n1 and rng.random() < 0.15:          # coincident / exactly tied pairs
@@ -1180,6 +1182,7 @@ def correspond(ctx):
     cases = [dict(c) for c in FIXED_CASES]
     cases += [gen_arr_case(rng, 'exact') for _ in range(ctx.n(3000, 40000))]
     cases += [gen_arr_case(rng, 'tol') for _ in range(ctx.n(1000, 12000))]
+    cases += [gen_arr_case(rng, 'exact', big=rng.choice([130, 257, 600, 1025])) for _ in range(ctx.n(4, 30))]
     cases += [gen_sys_case(rng) for _ in range(ctx.n(1500, 20000))]
     cases += [gen_disp_case(rng) for _ in range(ctx.n(600, 8000))]
     cases += [gen_history(rng) for _ in range(ctx.n(500, 6000))]
@@ -1465,20 +1468,20 @@ def oracle_pairs(ctx, case, stats):
             _viol(ctx, 'translate', f'dvect changes under a common translation {tshift}: {dv} -> '
                         f'{rt[1] if rt[0] == "err" else np.asarray(rt[1]).tolist()}; cell {v} pbc={pbc} pos_0 {p0s} pos_1 {p1s}', rep)
     clauses(ctx, stats, '', lambda k: f'dvect({pairs[k][0]}, {pairs[k][1]}) [{shapes}, cell {v}]', v, o, pbc, pairs, dv, dm,
-            exact, rep)
+            exact, rep, claim=len(pairs) <= 64)
 
 
 NEAR_TIE_EPS = [0.0, 1e-16, -1e-16, 1e-15, 1e-14, -1e-14, 1e-13, -1e-13, 1e-12, 1e-11, -1e-11, 1e-10, 1e-9, -1e-9, 1e-8,
                 1e-7, -1e-6]
 
 
-def _oracle_case(rng, regime, kind=None, inside=None):
+def _oracle_case(rng, regime, kind=None, inside=None, big=None):
     shape = rng.choice(['mm', 'mm', 'mm', '1m', 'm1'])
     f32 = False
     if regime == 'exact':
         f = 2.0 ** gen_scale_exp(rng)
         v, o = gen_cell_scaled(rng, kind or rng.choice(CELL_KINDS), f)
-        n = rng.randint(1, 5)
+        n = big or rng.randint(1, 5)
         where = inside if inside is not None else rng.choice(['in', 'in', 'face', None])
         p0 = [gen_point(rng, v, o, where) for _ in range(n)]
         p1 = [gen_point(rng, v, o, where) for _ in range(n)]
@@ -1686,6 +1689,8 @@ def search(ctx, broken):
         plan.append(_oracle_case(rng, 'exact', kind, inside='in' if it % 3 else None))
     for it in range(ctx.n(500, 7000) * mult):
         plan.append(_oracle_case(rng, 'tol'))
+    for it in range(ctx.n(6, 40) * mult):        # long arrays (bulk code paths): a few thousand pairs each
+        plan.append(_oracle_case(rng, 'exact', big=rng.choice([130, 257, 600, 1025, 2100])))
     for case in plan:
         ctx.stats.case('oracle:' + case['regime'], (case['vects'], case['origin'], case['pbc'], case['p0'], case['p1']),
                        nontrivial=any(case['pbc']))
